@@ -7,7 +7,7 @@ use arrow_array::{Int64Array, RecordBatch};
 use arrow_schema::{DataType, Field, Schema};
 use cardinalsin::ingester::{load_flushed_seq, persist_flushed_seq, WalConfig, WalSyncMode, WriteAheadLog};
 use serde_json::json;
-use std::collections::{BTreeMap, BTreeSet, HashSet, VecDeque};
+use std::collections::{BTreeMap, BTreeSet, HashSet};
 use std::path::{Path, PathBuf};
 use std::sync::atomic::{AtomicU64, Ordering};
 use std::sync::{Arc, Mutex};
@@ -167,7 +167,8 @@ impl World {
     }
 
     async fn do_append(&mut self, rows: usize) -> Result<u64, Fail> {
-        self.tag += 1;
+        // payload identity is a function of the reference state, so that equal states have equal futures
+        self.tag = self.model.acked_max as i64 + 1 + self.model.written.len() as i64 * 7;
         let b = batch(rows, self.tag);
         let wal = self.wal.as_mut().unwrap();
         match wal.append(&b).await {
@@ -381,120 +382,132 @@ fn explore_config(seg: usize, depth: usize, max_crashes: usize, every_byte_inner
     let t0 = std::time::Instant::now();
     let stats = Arc::new(Mutex::new(Stats::default()));
     let seen: Arc<Mutex<HashSet<u64>>> = Arc::new(Mutex::new(HashSet::new()));
-    let queue: Arc<Mutex<VecDeque<Vec<Op>>>> = Arc::new(Mutex::new(VecDeque::from([vec![]])));
-    let inflight = Arc::new(AtomicU64::new(0));
     let workers = crate::engine::sched::default_workers();
-    std::thread::scope(|s| {
-        for _ in 0..workers {
-            let stats = stats.clone();
-            let seen = seen.clone();
-            let queue = queue.clone();
-            let inflight = inflight.clone();
-            s.spawn(move || {
-                let rt = tokio::runtime::Builder::new_current_thread().enable_all().build().unwrap();
-                loop {
-                    let job = {
-                        let mut q = queue.lock().unwrap();
-                        let j = q.pop_front();
-                        if j.is_some() {
-                            inflight.fetch_add(1, Ordering::SeqCst);
-                        }
-                        j
-                    };
-                    let Some(hist) = job else {
-                        if inflight.load(Ordering::SeqCst) == 0 {
+    // level-synchronous BFS: a state is first reached at its minimal depth, so deduplication never
+    // cuts an expansion short
+    let mut frontier: Vec<Vec<Op>> = vec![vec![]];
+    let mut level = 0usize;
+    while !frontier.is_empty() {
+        let next_frontier: Arc<Mutex<Vec<Vec<Op>>>> = Arc::new(Mutex::new(Vec::new()));
+        let idx = Arc::new(AtomicU64::new(0));
+        let frontier_ref = &frontier;
+        std::thread::scope(|s| {
+            for _ in 0..workers {
+                let stats = stats.clone();
+                let seen = seen.clone();
+                let next_frontier = next_frontier.clone();
+                let idx = idx.clone();
+                s.spawn(move || {
+                    let rt = tokio::runtime::Builder::new_current_thread().enable_all().build().unwrap();
+                    loop {
+                        let i = idx.fetch_add(1, Ordering::SeqCst) as usize;
+                        if i >= frontier_ref.len() {
                             return;
                         }
-                        std::thread::sleep(std::time::Duration::from_micros(300));
-                        continue;
-                    };
-                    if t0.elapsed() > wall_cap {
-                        stats.lock().unwrap().capped = true;
-                        inflight.fetch_sub(1, Ordering::SeqCst);
-                        continue;
-                    }
-                    rt.block_on(async {
-                        let (w, fail) = replay_history(seg, &hist).await;
-                        let mut st_local = Stats::default();
-                        st_local.histories = 1;
-                        st_local.max_depth = hist.len();
-                        if let Some((i, f)) = fail {
-                            st_local.fails.insert(f.sig.clone(), (f.msg.clone(), json!({"kind":"history","segment_limit":seg,"history":hist[..=i.min(hist.len().saturating_sub(1))].to_vec()}), 1));
-                        } else if let Some(mut w) = w {
-                            let k = crate::props::common::hash_of(&w.key());
-                            let fresh = seen.lock().unwrap().insert(k);
-                            if fresh {
-                                st_local.states = 1;
-                                let crashes = hist.iter().filter(|o| matches!(o, Op::Crash(..))).count();
-                                // every-byte sweep of a crash in each crashable operation from this state
-                                for op in crashable() {
-                                    // fresh world per op (run_for_diff consumes the state)
-                                    let (w2, _) = replay_history(seg, &hist).await;
-                                    let Some(mut w2) = w2 else { continue };
-                                    match w2.crash_images(&op, true).await {
-                                        Ok(imgs) => {
-                                            for (cut, img, model) in imgs {
-                                                st_local.probes += 1;
-                                                if matches!(cut, Cut::Append { bytes, .. } if bytes > 0) {
-                                                    st_local.torn_probes += 1;
-                                                }
-                                                if let Err(f) = probe_recovery(seg, &img, &model, w2.tag + 100).await {
-                                                    let mut h = hist.clone();
-                                                    h.push(Op::Crash(Box::new(op.clone()), cut.clone()));
-                                                    let sig = format!("{}@crash-in-{}", f.sig, match op { Op::Append(_) => "append", Op::Truncate(_) => "truncate", _ => "persist" });
-                                                    let e = st_local.fails.entry(sig).or_insert((f.msg.clone(), json!({"kind":"history","segment_limit":seg,"history":h,"then":"reopen, append, reopen"}), 0));
-                                                    e.2 += 1;
+                        if t0.elapsed() > wall_cap {
+                            stats.lock().unwrap().capped = true;
+                            return;
+                        }
+                        let hist = frontier_ref[i].clone();
+                        rt.block_on(async {
+                            let (w, fail) = replay_history(seg, &hist).await;
+                            let mut st_local = Stats::default();
+                            st_local.histories = 1;
+                            st_local.max_depth = hist.len();
+                            let mut succ: Vec<Vec<Op>> = Vec::new();
+                            if let Some((i, f)) = fail {
+                                st_local.fails.insert(f.sig.clone(), (f.msg.clone(), json!({"kind":"history","segment_limit":seg,"history":hist[..=i.min(hist.len().saturating_sub(1))].to_vec()}), 1));
+                            } else if let Some(w) = w {
+                                // the crash budget already used is part of the search state
+                                let crashes_used = hist.iter().filter(|o| matches!(o, Op::Crash(..))).count();
+                                let k = crate::props::common::hash_of(&(w.key(), crashes_used.min(max_crashes)));
+                                let fresh = seen.lock().unwrap().insert(k);
+                                if fresh {
+                                    st_local.states = 1;
+                                    if std::env::var("VERIF_C05_DEBUG").is_ok() {
+                                        let k3 = w.key();
+                                        eprintln!("STATE {:?} model={:?} next={} {k:x}", k3.0.iter().map(|(n, b)| format!("{n}:{}:{:x}", b.len(), crate::props::common::hash_bytes(b))).collect::<Vec<_>>(), k3.1, k3.2);
+                                    }
+                                    let crashes = hist.iter().filter(|o| matches!(o, Op::Crash(..))).count();
+                                    // every-byte sweep of a crash in each crashable operation from this state
+                                    // (the crash is the last operation of a history of length <= depth)
+                                    // (every byte when the crash is the last operation of a history of length <= depth;
+                                    // structural cuts only from the deepest states)
+                                    for op in crashable() {
+                                        let (w2, _) = replay_history(seg, &hist).await;
+                                        let Some(mut w2) = w2 else { continue };
+                                        match w2.crash_images(&op, hist.len() < depth).await {
+                                            Ok(imgs) => {
+                                                for (cut, img, model) in imgs {
+                                                    st_local.probes += 1;
+                                                    if matches!(cut, Cut::Append { bytes, .. } if bytes > 0) {
+                                                        st_local.torn_probes += 1;
+                                                    }
+                                                    if let Err(f) = probe_recovery(seg, &img, &model, w2.tag + 100).await {
+                                                        let mut h = hist.clone();
+                                                        h.push(Op::Crash(Box::new(op.clone()), cut.clone()));
+                                                        let sig = format!("{}@crash-in-{}", f.sig, match op { Op::Append(_) => "append", Op::Truncate(_) => "truncate", _ => "persist" });
+                                                        let e = st_local.fails.entry(sig).or_insert((f.msg.clone(), json!({"kind":"history","segment_limit":seg,"history":h,"then":"reopen, append, reopen"}), 0));
+                                                        e.2 += 1;
+                                                    }
                                                 }
                                             }
-                                        }
-                                        Err(f) => {
-                                            let e = st_local.fails.entry(f.sig.clone()).or_insert((f.msg.clone(), json!({"kind":"history","segment_limit":seg,"history":hist,"next":op}), 0));
-                                            e.2 += 1;
-                                        }
-                                    }
-                                }
-                                // successors
-                                if hist.len() < depth {
-                                    let mut next: Vec<Op> = alphabet();
-                                    if crashes < max_crashes {
-                                        for op in crashable() {
-                                            let (w3, _) = replay_history(seg, &hist).await;
-                                            let Some(mut w3) = w3 else { continue };
-                                            if let Ok(imgs) = w3.crash_images(&op, every_byte_inner).await {
-                                                for (cut, _, _) in imgs {
-                                                    next.push(Op::Crash(Box::new(op.clone()), cut));
-                                                }
+                                            Err(f) => {
+                                                let e = st_local.fails.entry(f.sig.clone()).or_insert((f.msg.clone(), json!({"kind":"history","segment_limit":seg,"history":hist,"next":op}), 0));
+                                                e.2 += 1;
                                             }
                                         }
                                     }
-                                    let mut q = queue.lock().unwrap();
-                                    for op in next {
-                                        let mut h = hist.clone();
-                                        h.push(op);
-                                        q.push_back(h);
-                                        st_local.transitions += 1;
+                                    // successors
+                                    if hist.len() < depth {
+                                        let mut next: Vec<Op> = alphabet();
+                                        if crashes < max_crashes {
+                                            for op in crashable() {
+                                                let (w3, _) = replay_history(seg, &hist).await;
+                                                let Some(mut w3) = w3 else { continue };
+                                                if let Ok(imgs) = w3.crash_images(&op, every_byte_inner).await {
+                                                    for (cut, _, _) in imgs {
+                                                        next.push(Op::Crash(Box::new(op.clone()), cut));
+                                                    }
+                                                }
+                                            }
+                                        }
+                                        for op in next {
+                                            let mut h = hist.clone();
+                                            h.push(op);
+                                            succ.push(h);
+                                            st_local.transitions += 1;
+                                        }
                                     }
                                 }
                             }
-                            let _ = &mut w;
-                        }
-                        let mut st = stats.lock().unwrap();
-                        st.histories += st_local.histories;
-                        st.states += st_local.states;
-                        st.transitions += st_local.transitions;
-                        st.probes += st_local.probes;
-                        st.torn_probes += st_local.torn_probes;
-                        st.max_depth = st.max_depth.max(st_local.max_depth);
-                        for (k, v) in st_local.fails {
-                            let e = st.fails.entry(k).or_insert((v.0.clone(), v.1.clone(), 0));
-                            e.2 += v.2;
-                        }
-                    });
-                    inflight.fetch_sub(1, Ordering::SeqCst);
-                }
-            });
+                            next_frontier.lock().unwrap().extend(succ);
+                            let mut st = stats.lock().unwrap();
+                            st.histories += st_local.histories;
+                            st.states += st_local.states;
+                            st.transitions += st_local.transitions;
+                            st.probes += st_local.probes;
+                            st.torn_probes += st_local.torn_probes;
+                            st.max_depth = st.max_depth.max(st_local.max_depth);
+                            for (k, v) in st_local.fails {
+                                let e = st.fails.entry(k).or_insert((v.0.clone(), v.1.clone(), 0));
+                                e.2 += v.2;
+                            }
+                        });
+                    }
+                });
+            }
+        });
+        let mut nf = std::mem::take(&mut *next_frontier.lock().unwrap());
+        // deterministic order inside a level
+        nf.sort_by_key(|h| format!("{h:?}"));
+        frontier = nf;
+        level += 1;
+        if stats.lock().unwrap().capped {
+            break;
         }
-    });
+    }
+    let _ = level;
     let _ = std::fs::remove_dir_all(scratch_root());
     Arc::try_unwrap(stats).ok().unwrap().into_inner().unwrap()
 }
@@ -543,7 +556,7 @@ pub fn run(tier: &str) -> i32 {
     rep.set("distinct_nontrivial", total.torn_probes);
     rep.set("max_depth", total.max_depth as u64);
     rep.set("rule", "BFS over operation histories {append small/large, truncate_before(max acked [+1]), persist_flushed_seq, reopen, crash-during-op at a structural cut} deduplicated on (directory image, reference state, next_seq); from every distinct state, every byte offset of a crash in each of append small / append large / truncate / flushed_seq write is followed by reopen, check, append, reopen, check. distinct_nontrivial = recovery probes whose image contains a torn (non-empty, possibly complete-but-unacknowledged) last write");
-    rep.set("bounds", json!({"history_depth": depth, "crashes_per_history_before_final": max_crashes, "final_crash": "every byte", "segment_limits": [1, 2 * small_entry + 10, 0]}));
+    rep.set("bounds", json!({"history_depth": depth, "crashes_per_history_before_final": max_crashes, "final_crash": "every byte as the last operation of every history of length <= depth; structural cuts (nothing, segment created, inside header, header only, header+1, inside payload, len-1, complete) after histories of length depth+1", "segment_limits": [1, 2 * small_entry + 10, 0]}));
     if total.capped {
         rep.set("exhaustive", false);
     }
